@@ -336,6 +336,19 @@ def _tap3_knowledge(t3: ast.AST) -> List[str]:
     return out + [local[1]]
 
 
+def _exploit_empty_guard(t3: ast.AST) -> List[str]:
+    """`TAP003._exploit`: the statement right before `malicious_acl = …malicious_acls[self._current_acl]` must be the guard for an
+    empty list: its test and the statements of its body."""
+    fn = find_method(class_def(t3, "TAP003"), "_exploit")
+    outer = next(st for st in fn.body if isinstance(st, ast.If))
+    for prev, st in zip(outer.body, outer.body[1:]):
+        if isinstance(st, ast.Assign) and ast.unparse(st.targets[0]) == "malicious_acl":
+            if not isinstance(prev, ast.If) or prev.orelse:
+                raise ValueError("TAP003._exploit: no guard before indexing malicious_acls")
+            return [ast.unparse(prev.test)] + [ast.unparse(x).replace('"', "'") for x in prev.body]
+    raise ValueError("TAP003._exploit: `malicious_acl = …` not found")
+
+
 def _lean_triples(xs) -> str:
     return "[" + ", ".join(f'("{a}", "{b}", "{c}")' for a, b, c in xs) + "]"
 
@@ -469,6 +482,8 @@ def periodicStartNode : String := "{_start_node_body(t_rand)}"
 def dmDefaultApplication : String := "{_field_default([c for c in ast.walk(class_def(t_dm, "DataManipulationAgent")) if isinstance(c, ast.ClassDef) and c.name == "AgentSettingsSchema"][0], "target_application")}"
 /-- TAP003: settings validator (possible start nodes, keys of an account-change host, keys of an ACL router) and the entry written after a local password change -/
 def tap3Knowledge : List String := {_lean_strs(_tap3_knowledge(t3))}
+/-- TAP003._exploit: the guard for an empty `malicious_acls` (test, body) right before the list is indexed -/
+def tap3ExploitEmptyGuard : List String := {_lean_strs(_exploit_empty_guard(t3))}
 /-- every assignment to an attribute `actions_concluded` in a method under game/agent: (file, function, value) -/
 def concludedWriters : List (String × String × String) := {_lean_triples(_concluded_writers())}
 end Primaite.Gen.Agents
